@@ -107,6 +107,8 @@ def nontrivial(line, out):
 
 def extra(rep, impl_exe, model_exe, rng, tier):
     js = size_jobs(rng, tier)
+    import held
+    js += held.qr_tie_jobs() * (2 if tier == "quick" else 6)      # mask ties: plain and WithColor must pick the same mask
     for j in J.jobs(rng, 100 if tier == "quick" else 3000, scale_frac=0.0):
         if j.split()[1] in c10.ENCODERS:
             js.append(j[4:])
